@@ -31,7 +31,9 @@ META = {
             "(not the Hadamard/clean wrapper, not the measurement-based QROM rule, which is skipped), Permute's legacy and registered rule. Partial Select, unary-iterator Select, work-wire rules, QPE/QMC/AA/QSVT/GQSP/BlockEncode/FABLE "
             "are validated numerically only (C). QFT as DFT for general n is not proved (sizes <= 3 exact, <= 6 numeric). Trotter error bounds: the docstring documents no numeric bound; the standard commutator bounds are checked. "
             "The FABLE tolerance bound is the one of arXiv:2205.00081, not stated in the docstring. ApproxTimeEvolution/CommutingEvolution drop identity terms of the Hamiltonian (global phase): identity terms are not generated. "
-            "QROM indices m <= i < 2^c and target != |0> are outside the documented domain and not compared. Failures of the classical angle solver qp.poly_to_angles are counted, not judged "
+            "QROM indices m <= i < 2^c and target != |0> are outside the documented domain and not compared. "
+            "qp.qsvt(A, poly, block_encoding='embedding') inherits BlockEncode's normalisation by max(||A A^dag||_inf, ||A^dag A||_inf) even when ||A||_2 <= 1 "
+            "(then the block is poly(A/norm)); the reference follows this documented normalisation and counts such cases. Failures of the classical angle solver qp.poly_to_angles are counted, not judged "
             "(observed: root-finding solver raises ValueError for [0, 1.6423187969819757, 0, -0.9200583939709709]).",
     "assumptions": ["sizes: numeric <= 9 wires; exact obligations <= 4 wires; exact obligations use rational Hamiltonian coefficients and multiples of pi/4 for fixed angles"],
     "trusted": ["translator harness/qsym.py, harness/qx.py, harness/qrules.py", "numpy/scipy reference constructions in harness/impl/c58_impl.py"],
